@@ -64,9 +64,12 @@ Impl_DomainWithPort(hp, ds) ==
 \* ---- cases -------------------------------------------------------------------------------
 SameSites == {"", "lax", "strict", "none"}
 PathsC    == {"/", "/app"}
-Mk(sec, ho, ss, pa, ds, h, po, via, st, sz, nl) ==
+\* csrf = "perreq": per-request CSRF cookie names; the browser then also still holds the (no longer valid) CSRF cookie of an
+\* abandoned earlier login when it completes this one
+Mk2(sec, ho, ss, pa, ds, h, po, via, st, sz, nl, cs) ==
     [secure |-> sec, httpOnly |-> ho, sameSite |-> ss, path |-> pa, domains |-> ds, host |-> h, port |-> po,
-     via |-> via, store |-> st, size |-> sz, nameLen |-> nl]
+     via |-> via, store |-> st, size |-> sz, nameLen |-> nl, csrf |-> cs]
+Mk(sec, ho, ss, pa, ds, h, po, via, st, sz, nl) == Mk2(sec, ho, ss, pa, ds, h, po, via, st, sz, nl, "fixed")
 
 DefaultAttrs(c) == c.secure /\ c.httpOnly /\ c.sameSite = "" /\ c.path = "/"
 InScope(c) ==
@@ -74,13 +77,15 @@ InScope(c) ==
     /\ (Tier = "quick" => \/ (c.domains = {} /\ c.host = APP /\ c.port = <<>> /\ c.via = "host" /\ c.nameLen = "default")
                           \/ (DefaultAttrs(c) /\ c.nameLen = "default"))
     /\ (c.nameLen = "long" => DefaultAttrs(c) /\ c.via = "host")
+    /\ (c.csrf = "perreq" => c.nameLen = "default" /\ c.size = "small" /\ c.via = "host" /\ c.port = <<>>
+                              /\ (Tier = "quick" => c.store = "cookie" /\ (DefaultAttrs(c) \/ c.domains = {})))
     \* the attribute sweep and the domain sweep are crossed only on two domain sets (keeps distinct configurations in the low thousands)
     /\ (Tier = "thorough" => DefaultAttrs(c) \/ c.domains \in {{}, {D_EX, D_APP}})
 
 VARIABLE c
 Init == \E sec \in BOOLEAN, ho \in BOOLEAN, ss \in SameSites, pa \in PathsC, ds \in DomainSets, h \in Hosts, po \in Ports,
-           via \in {"host", "xfh"}, st \in {"cookie", "redis"}, sz \in {"small", "split"}, nl \in {"default", "long"} :
-          c = Mk(sec, ho, ss, pa, ds, h, po, via, st, sz, nl) /\ InScope(c)
+           via \in {"host", "xfh"}, st \in {"cookie", "redis"}, sz \in {"small", "split"}, nl \in {"default", "long"}, cs \in {"fixed", "perreq"} :
+          c = Mk2(sec, ho, ss, pa, ds, h, po, via, st, sz, nl, cs) /\ InScope(c)
 Next == UNCHANGED c
 
 ImplMeetsReq    == Impl_Domain(c.host \o c.port, c.domains) = Req_Domain(c.host, c.domains)
